@@ -66,6 +66,7 @@ def _install():
 
 
 _install()
+_STATE = api.ModuleState(statuses, skip=('KNOWN_STATUSES',))
 
 
 @cond(bounds='every status code 0..65535 (symbolic) for one message class per instance: all 23 message classes and '
@@ -75,6 +76,7 @@ def status_classified(v: int) -> bool:
     pre: 0 <= v <= 65535
     post: _
     """
+    _STATE.restore()
     cf = fam('cmd')
     cmd = dm.MESSAGE_TYPE[cf] if cf is not None else None
     st = statuses.Status(v, cmd)
@@ -93,7 +95,45 @@ def status_classified(v: int) -> bool:
     return ok
 
 
+HIST = [None, 0x8030, 0x8001, 0x8020, 0x8010, 0x8021, 0x8120]
+
+
+def classify(v, cf):
+    cmd = dm.MESSAGE_TYPE[cf] if cf is not None else None
+    st = statuses.Status(v, cmd)
+    names = ['Success', 'Pending', 'Warning', 'Cancel', 'Failure']
+    flags = [st.is_success, st.is_pending, st.is_warning, st.is_cancel, st.is_failure]
+    got = [nm for f, nm in zip(flags, names) if f]
+    return got, st.status_type
+
+
+@cond(bounds='classification does not depend on history: a status for message class X (any code) is created first, '
+             'then one for class Y with the same code, then X again - every ordered pair X != Y over {none, C-ECHO-RSP, '
+             'C-STORE-RSP, C-FIND-RSP, C-GET-RSP, C-MOVE-RSP, N-SET-RSP}; the code symbolic over 0..65535',
+      family=[dict(first=a, second=b) for a in range(7) for b in range(7) if a != b], timeout=60)
+def status_history(v: int) -> bool:
+    """
+    pre: 0 <= v <= 65535
+    post: _
+    """
+    _STATE.restore()
+    cf1, cf2 = HIST[fam('first')], HIST[fam('second')]
+    classify(v, cf1)
+    got, typ = classify(v, cf2)
+    ok = len(got) == 1 and got[0] == typ and typ in ref.allowed_classes(cf2, v)
+    got, typ = classify(v, cf1)
+    ok = ok and len(got) == 1 and got[0] == typ and typ in ref.allowed_classes(cf1, v)
+    deep(ok and v == 0xFE00)
+    return ok
+
+
 def explain(cname, args, famv):
+    if cname == 'status_history':
+        cf1, cf2 = HIST[famv['first']], HIST[famv['second']]
+        classify(args['v'], cf1)
+        got, typ = classify(args['v'], cf2)
+        return 'after Status(0x%04X, %r): Status(0x%04X, %r) -> %r; PS3.7/PS3.4 allow %r' % (
+            args['v'], cf1, args['v'], cf2, typ, ref.allowed_classes(cf2, args['v']))
     cf = famv.get('cmd')
     cmd = dm.MESSAGE_TYPE[cf] if cf is not None else None
     st = statuses.Status(args['v'], cmd)
